@@ -104,6 +104,27 @@ def run_encoder_stream(ctx, rt, name, smiles_list, tname, table, flags="s", judg
     return [idx[i - 1] for i in bad if i > 0]
 
 
+def run_parse_stream(ctx, rt, name, smiles_list, kekulize=False):
+    """graph-level tie of the parser (and of kekulize with the recorded tape): the real MolecularGraph vs the
+    model's PMol (atoms, roots, adjacency with placeholders / half-unit orders / stereo / ring flags, counts,
+    ring flags, delocalisation subgraph) - what the C03/C05/C09 theorems speak about"""
+    lines, expected, idx = [], [], []
+    for smi in smiles_list:
+        if not sendable(smi):
+            continue
+        r, tape = impl.real_parse(smi, kekulize=kekulize)
+        if r.startswith("err\t") and r != "err\tSMILESParserError":
+            pass
+        if kekulize:
+            lines.append("kek\t%s\t%s" % (impl.tape_str(tape), enc(smi)))
+        else:
+            lines.append("parse\t%s" % enc(smi))
+        expected.append(r)
+        idx.append(smi)
+        ctx.evaluations += 1
+    rt.corr("graph:%s" % name, lines, expected, show=lambda i: {"smiles": idx[i]})
+
+
 def roundtrip_judge(ctx, which):
     """predicates of C03 / C04 / C05 on the real encoder + decoder"""
     def judge(smi, r, tname, table):
@@ -185,6 +206,8 @@ def check_C03(ctx, rt):
             run_decoder_stream(ctx, rt, "roundtrip-dec", sels, tname, tab)
         ctx.sample({"smiles": pool[5], "selfies": sf.encoder(pool[5], strict=False)})
         hypothesis_coverage(ctx, rt, pool, relaxed(sf))
+        run_parse_stream(ctx, rt, "parse", pool[::rt.n(3, 2)])
+        run_parse_stream(ctx, rt, "kekulize", pool[1::rt.n(3, 2)], kekulize=True)
     finally:
         restore_default()
 
@@ -484,6 +507,7 @@ def check_C05(ctx, rt):
         spell = list(dict.fromkeys(spell))
         run_encoder_stream(ctx, rt, "aromatic-enc", spell, "relaxed", relaxed(sf), flags="s", judge=judge)
         ctx.sample({"aromatic": spell[:3]})
+        run_parse_stream(ctx, rt, "kekulize-aromatic", spell[::rt.n(2, 1)], kekulize=True)
         ctx.assumptions.append("completeness for standard atom kinds and atom-order independence are decided by bounded search, not by a theorem")
     finally:
         restore_default()
@@ -593,6 +617,7 @@ def check_C09(ctx, rt):
                                   smiles=s[:300], flags=flags, error=r.split("\t")[1])
             run_encoder_stream(ctx, rt, "malformed", mal if flags == "s" else mal[: len(mal) // 3], "default",
                                sf.get_preset_constraints("default"), flags=flags, judge=judge)
+        run_parse_stream(ctx, rt, "parse-malformed", mal[::rt.n(4, 2)])
         ctx.evaluations += 1
         r, _t = impl.real_encoder("C(" * 2000 + "C" + ")C" * 2000)
         if r == "err\tRecursionError":
